@@ -182,35 +182,31 @@ def stepSt (st : St) (i : Nat) : Op × Obs → St × List Fail
     ({ st with hot := hot', compacted := st.compacted || decide (acct hot' < acct st.hot) }, [])
   | _ => (st, [.badAnswer i])
 
-/-- the first failure of the statement on a case, if any (after a failure the
-    abstract cache is no longer in step with the implementation) -/
-def checkFrom (st : St) (i : Nat) : List (Op × Obs) → Option Fail
-  | [] => none
+/-- the failures of the statement on a case.  A stale-size failure leaves the
+    abstract cache in step with the implementation (only the reported number is
+    off), so checking continues; after any other failure it stops. -/
+def checkFrom (st : St) (i : Nat) : List (Op × Obs) → List Fail
+  | [] => []
   | x :: rest =>
-    match stepSt st i x with
-    | (_, f :: _) => some f
-    | (st', []) => checkFrom st' (i + 1) rest
+    let (st', fs) := stepSt st i x
+    if fs.all Fail.isStale then fs ++ checkFrom st' (i + 1) rest else fs
 
-def check (tr : List (Op × Obs)) : Option Fail := checkFrom {} 0 tr
+def check (tr : List (Op × Obs)) : List Fail := checkFrom {} 0 tr
 
 /-- **the statement** on one (sequential) case -/
-def holdsOn (tr : List (Op × Obs)) : Bool := (check tr).isNone
+def holdsOn (tr : List (Op × Obs)) : Bool := (check tr).isEmpty
 
 /-- the statement with the size clause waived once a read has compacted superseded values -/
-def holdsOnExceptStale (tr : List (Op × Obs)) : Bool :=
-  match check tr with
-  | none => true
-  | some f => f.isStale
+def holdsOnExceptStale (tr : List (Op × Obs)) : Bool := (check tr).all Fail.isStale
 
 /-! ### concurrent histories: linearizability against this very checker -/
 
-/-- the abstract cache after a sequential prefix (`none` if the prefix already fails) -/
+/-- the abstract cache after a sequential prefix (`none` if the prefix fails other than by a stale size) -/
 def finalSt (st : St) (i : Nat) : List (Op × Obs) → Option St
   | [] => some st
   | x :: rest =>
-    match stepSt st i x with
-    | (_, _ :: _) => none
-    | (st', []) => finalSt st' (i + 1) rest
+    let (st', fs) := stepSt st i x
+    if fs.all Fail.isStale then finalSt st' (i + 1) rest else none
 
 /-- one completed operation of a recorded history: invocation and response
     positions in the global order of events, and the observed answer -/
@@ -238,9 +234,8 @@ def linearizable : Nat → St → List Call → Bool
     pending.isEmpty ||
     pending.any fun c =>
       minimal pending c &&
-        match stepSt st 0 (c.op, c.obs) with
-        | (st', []) => linearizable fuel st' (pending.filter fun p => !p.same c)
-        | _ => false
+        (let (st', fs) := stepSt st 0 (c.op, c.obs)
+         fs.all Fail.isStale && linearizable fuel st' (pending.filter fun p => !p.same c))
 
 /-- **the statement on a case that ends in a concurrent history**: the prefix
     satisfies the sequential statement and the history is linearizable after it -/
